@@ -119,10 +119,17 @@ def run(prop, tier):
                 continue
             if sig.get("trigger") and not (set(sig["trigger"]) & set(x["script"])):
                 continue
-            if sig.get("trigger_any") and not (set(sig["trigger_any"]) & (set(x["script"]) | {o for h in t.get("history", []) for o in h})):
+            if sig.get("needs_pending_input") and not x.get("pending_at_start", 0):
                 continue
-            if sig.get("history_trigger") and not (set(sig["history_trigger"]) & {o for h in t.get("history", []) for o in h}):
-                continue
+            if "mismatch_within" in sig:
+                mm = set(v.get("detail", {}).get("mismatch", []) or [])
+                allowed = set(sig["mismatch_within"]) | ({"nomatch"} if x.get("pending_at_start", 0) else set())
+                if x["result"]["kind"] == "reply" and not (mm and mm <= allowed):
+                    continue
+            if sig.get("any_of"):
+                # at least one of: a stale/foreign frame in this transaction's script, or unread input at its start
+                if not ((set(sig["any_of"]) & set(x["script"])) or x.get("pending_at_start", 0)):
+                    continue
             fid = kid
             break
         if fid:
